@@ -302,6 +302,13 @@ def run(tier, seed, replay):
         sp["what"] = ["todo-exemption-two-files"]
         specs.append(sp)
         plan.append(("verdict", ("todo across files %s then %s" % (f0, f1), want)))
+    # each diagnostic names the offending key: non-primitive values at positions that differ from the index of their call / decorator
+    sp = common.mk_spec(len(specs), ["services:\n  s:\n    constructor: NewA\n    arguments: [1, [2], 3, {a: 4}]\n    calls:\n      - [M0, [1]]\n      - [M1, [[1], 2, {a: 1}]]\n      - [M2, []]\n      - [M3, [1, 2, 3, [4]]]\n    fields: {A: 1, B: [1], C: {x: 1}}\ndecorators:\n  - {tag: t, decorator: D0, arguments: [1]}\n  - {tag: t, decorator: D1, arguments: [1, 2, [3]]}\n"])
+    sp["what"] = ["offending-key"]
+    specs.append(sp)
+    plan.append(("errors-exactly", ['services: "s": arguments: arg 1: unsupported type', 'services: "s": arguments: arg 3: unsupported type', 'services: "s": calls: 1: arguments: 0: unsupported type',
+                                    'services: "s": calls: 1: arguments: 2: unsupported type', 'services: "s": calls: 3: arguments: 3: unsupported type', 'services: "s": fields: "B": unsupported type',
+                                    'services: "s": fields: "C": unsupported type', 'decorators: 1 "D1": arguments: 2: unsupported type']))
     # a version error and grammar errors are all reported in one run
     sp = common.mk_spec(len(specs), [{"version": "9.9.9", "parameters": {"1bad": 1}, "services": {"s": {"constructor": "New X"}}}])
     sp["what"] = ["version-and-grammar"]
@@ -345,6 +352,13 @@ def run(tier, seed, replay):
             desc, want = car
             if want != (ob.get("exit") == 0):
                 out.violation("grammar-verdict:" + sp["what"][0], "%s: expected %s, the tool %s: %s" % (desc, "accept" if want else "reject", "accepts" if ob.get("exit") == 0 else "rejects", (ob.get("errors") or [])[:2]), common.slim(sp, ob))
+            continue
+        if pos == "errors-exactly":
+            evals += 1
+            errs_ = ob.get("errors") or []
+            miss = [w for w in car if not any(w in e for e in errs_)]
+            if miss or len(errs_) != len(car):
+                out.violation("offending-key:" + sp["what"][0], "the diagnostics do not name exactly the offending keys: missing %s; reported: %s" % (miss, [e.replace("compiler.StepValidateInput: ", "")[:70] for e in errs_]), common.slim(sp, ob))
             continue
         if pos == "errors-contain":
             evals += 1
